@@ -133,6 +133,11 @@ func kaliasReads(r *rng) {
 	for f := 0; f < nf; f++ {
 		s.walk(0, 0, uint64(10+f), p9.ModeRegular|0644, "r"+string(rune('a'+f)))
 		s.call(0, 12, map[string]interface{}{"fid": uint64(10 + f), "Flags": uint64(0)})
+		// reads that come back empty first (end of file, zero length): whatever they do with their
+		// buffer must not leave it to two later reads at once
+		for k := 0; k < 1+r.intn(3); k++ {
+			s.call(0, 116, map[string]interface{}{"fid": uint64(10 + f), "Offset": uint64(5), "Count": uint64(0)})
+		}
 	}
 	// more reply bytes than the socket buffers hold, and nobody reads yet: reply writers block while
 	// later handlers run
